@@ -37,6 +37,22 @@ CLAIMED = {
    ref="5 C09",
    note=("Hand-written model coq/model/Fourier.v tied by correspondence (explicit DFT sums vs numpy.fft, 1e-9); Reals axioms; "
          "continuous-FT approximation and rft2/irft2 only in the numerical falsifier.")),
+ "C10": dict(
+   technique="Coq proof of power conservation for all four propagators over a hand model + vm_compute correspondence",
+   text=("Machine-checked proofs that angularSpectrum (any magnification), oneStepFresnel, twoStepFresnel and lensAgainst, modelled pixel by "
+         "pixel as written, satisfy sum|U_out|^2 d_out^2 = sum|U_in|^2 d_in^2 for every complex field on every N x N grid, every wavelength, "
+         "spacing and distance of either sign (unit-modulus phase grids, Parseval of the 2-D DFT, |1/(i lambda z)|^2, |Dz1/Dz2| = 1/m); the "
+         "model is executed at binary64 against the implementation on every case; linearity is covered by the correspondence and the falsifier."),
+   ref="5 C10",
+   note="Hand model coq/model/Optics.v tied by correspondence (1e-8); Reals axioms; linearity not yet a Coq theorem; numpy-float unit magnification is a known finding."),
+ "C11": dict(
+   technique="Coq proof of the group laws and of lens = one-step identity over a hand model + vm_compute correspondence + numerical physics falsifier",
+   text=("Machine-checked proofs that unit-magnification angular-spectrum propagation is a one-parameter group (z = 0 identity, distances add for "
+         "any split, -z undoes +z) and that lensAgainst is exactly oneStepFresnel after the thin-lens phase, for all fields and grids; the "
+         "magnified round trip, cross-propagator agreement and Gaussian-beam clauses concern the continuous Fresnel integral and are only "
+         "tested numerically (partial); that falsifier found that twoStepFresnel returns a point-reflected field (known finding)."),
+   ref="5 C11",
+   note="Hand model tied by correspondence; Reals axioms; physics clauses (Gaussian beam, Airy, propagator agreement) not proved."),
 }
 NOT_YET = {}
 ALL = ["C%02d" % i for i in range(1, 21)]
